@@ -94,28 +94,35 @@ PROPS = {
                       "positionally from the parallel execution, slot 0 = unperturbed point, slot k+1 = perturbation k). Jacobian checking: "
                       "DisciplineJacApprox._compute_variable_indices returns, for every variable and every selection kind (int, list, slice, Ellipsis, None, "
                       "absent), the flat indices offset(variable) + selected component, the offsets being the prefix sums of the FULL variable sizes "
-                      "(loop invariant, any number of variables), and the per-name component lists.",
+                      "(loop invariant, any number of variables), and the per-name component lists. Centered differences: perturbation matrix (columns k / n+k = "
+                      "x +- h e_k; with a design space a step is dropped exactly when it would leave the bounds OF THE DIFFERENTIATED COMPONENT, in physical or "
+                      "normalised coordinates, so that no perturbed point leaves its bounds) and quotients (F(P[:,k]) - F(P[:,n+k])) / ||P[:,k] - P[:,n+k]||. "
+                      "Complex step over (re, im) pairs of real arrays: purely imaginary one-hot perturbation columns 1j h_k e_{I_k} (h_k != 0 when the step is), "
+                      "quotients Im F(x + P[:,k]) / h_k for any subset of components, sequential and parallel (the column sum used as divisor is the one-hot "
+                      "entry: lemma by induction).",
         "level_note": "Trusted: pyvc, the numpy model (npmodel.py: rank<=2 real arrays, paired fancy indexing, tile/reshape/T pattern), reals for floats; "
                       "pyvc/plug_c16.py (list displays with starred items, [f]*n, lists of arrays, selection union type, flattening comprehension relative to "
                       "contract-supplied offsets whose prefix-sum recurrence is a generated obligation). ASSUMED: the parallel execution is seen through the summary "
                       "of its C13 contract for tasks that all succeed (len(result) = len(inputs), result[i] = functions[i](inputs[i]); one callable per input is a "
                       "generated obligation; the task body is the real _wrap_function). "
-                      "Centered differences: the perturbation matrix without design space (columns k / n+k = x +- h e_k) and the quotients "
-                      "(F(P[:,k]) - F(P[:,n+k])) / ||P[:,k] - P[:,n+k]|| with numpy.linalg.norm uninterpreted (its value 2|h| on these columns is NOT derived). "
-                      "Complex step (contracts/c16_complex.py: perturbation matrix and quotients over (re, im) pairs) and centered differences with a design space "
-                      "(contracts/c16_centered.py) are written but NOT listed in `modules`: they expose reported gemseo defects awaiting triage. "
-                      "Not covered: discipline-level wrappers, float rounding.",
+                      "Centered differences: numpy.linalg.norm is uninterpreted (its value 2|h| on these columns is NOT derived). Complex arrays are pairs of real "
+                      "arrays, the differentiated function two uninterpreted maps of the real and imaginary parts; `column.imag.sum()` is replaced by the one-hot "
+                      "entry named by the contract under the generated obligation that the column is one-hot (cited lemma proved as base + step SMT lemmas). "
+                      "ASSUMED: DesignSpace.get_lower_bounds / get_upper_bounds return the cached bound arrays. Three defects found with these contracts were "
+                      "repaired (known_findings.json `fixed`: 5c282a6, fde9871, 04a9b48). Not covered: discipline-level wrappers, float rounding.",
         "design_ref": "DESIGN.md §4 C16",
-        "modules": ["contracts.c16_derivatives", "contracts.c16_approx"],
+        "modules": ["contracts.c16_derivatives", "contracts.c16_approx", "contracts.c16_complex", "contracts.c16_centered"],
         "assumptions": ["CallableParallelExecution.execute: summary of its C13 contract (result:length, result:positional) for tasks that all succeed; extra **kwargs of the "
                         "differentiated function are not modelled (empty)",
                         "flattening comprehension: item t of sublist j at offsets(j) + t for the unique prefix-sum offsets of the sublist lengths",
-                        "a list has a non-negative length (type invariant of the selection lists)"],
-        "not_covered": ["centered differences: ||2 h e|| = 2|h| (norm uninterpreted), hence the textbook quotient; negative steps (reported: opposite sign); with a design space "
-                        "(reported defects, contracts/c16_centered.py)", "complex_step.py (contracts/c16_complex.py, reported defect: x_indices that is not a leading prefix)",
+                        "a list has a non-negative length (type invariant of the selection lists)",
+                        "get_lower_bounds()/get_upper_bounds() return the cached arrays of all bounds when the normalisation data are up to date",
+                        "sum of a vector with a single non-zero entry = that entry (OneHotSumLemmas, proved by induction; applied under the generated one-hot obligation)"],
+        "not_covered": ["centered differences: ||2 h e|| = 2|h| (norm uninterpreted), hence the textbook quotient; a NEGATIVE centered step returns the opposite Jacobian "
+                        "(division by 2|h|; observation, not repaired)", "ComplexStep.f_gradient (complex input check) and step setter",
                         "derivatives_approx.py except _compute_variable_indices (compute_approx_jac placement, check_jacobian comparison, auto_set_step)",
-                        "BaseGradientApproximator.f_gradient / generate_perturbations glue", "compute_optimal_step", "slices with a step and negative integer components in check_jacobian indices",
-                        "parallel centered differences / complex step", "float cancellation error"],
+                        "BaseGradientApproximator.f_gradient / generate_perturbations glue", "compute_optimal_step", "slices with a step in check_jacobian indices; a NEGATIVE integer component is added to the offset as is (flat index in the previous variable; observation)",
+                        "parallel centered differences", "float cancellation error"],
     },
     "C02": {
         "level_text": "Proof (all histories by invariant preservation, all sizes/values symbolically) that remove_variable, rename_variable, set_lower/upper_bound, "
@@ -170,12 +177,53 @@ PROPS = {
                       "database-assisted evaluation creates at most one new non-empty entry and only while the counter is below its maximum "
                       "(MaxIterReachedException is raised before the user's callable is invoked otherwise); Database.store notifies the new-iteration "
                       "listeners exactly when a new non-empty entry appears; the driver callback adds exactly one to the counter per notification; "
-                      "the budget invariant and its corollary 'at most N new entries' are then SMT lemmas over these contracts.",
+                      "the budget invariant and its corollary 'at most N new entries' are then SMT lemmas over these contracts. "
+                      "Driver side (contracts/c03_driver.py), on the real source of BaseDriverLibrary.execute: for an OptimizationProblem every path through "
+                      "_pre_run / _run - normal return or ANY TerminationCriterion (the class hierarchy of stop_criteria.py is read from the source; a lemma "
+                      "checks on the AST that the one try guarding both calls catches each of the 8 classes) - ends with a non-None result built by "
+                      "from_optimization_problem from the database as the run left it (_get_result on the normal path, _get_early_stopping_result on the "
+                      "exceptional one, with the documented message per criterion and no status: one verified variant per criterion class); the driver callback "
+                      "(and the new-iteration observables) are registered in the database before _pre_run (precondition of the run summary, proved at the call "
+                      "site), exactly the listeners this execution added are removed afterwards on both paths (Database.__add_listener / add_*_listener / "
+                      "clear_listeners / _clear_listeners verified, loop invariant over the driver's own listener set; duplicate-freeness of the listener list "
+                      "is preserved), the driver's own listener set is empty again and self._problem is None; a plain EvaluationProblem gets result None. "
+                      "_init_iter_observer sets maximum = max_iter and resets the counter iff reset_iteration_counters. BaseToleranceTester.check raises its "
+                      "criterion exactly when it is met and raise_exception is set; is_x_tol_reached / is_f_tol_reached route their tolerances unswapped and "
+                      "never raise; BaseOptimizationLibrary._new_iteration_callback counts once (also when stopping) and raises Ftol before Xtol. Sequential "
+                      "DOE loop (BaseDOELibrary._run, n_processes <= 1): loop invariant 'samples 0..k-1 have each been handed once, in order, to "
+                      "EvaluationProblem.evaluate_functions' (ghost evaluation log), a failing sample (ValueError) is skipped, termination criteria propagate, "
+                      "nothing else is raised; with Database.store's order clauses an induction lemma gives: keys created by earlier samples precede keys "
+                      "created by later ones.",
         "level_note": "Trusted: pyvc, z3; opaque arrays; listeners are opaque callables logged in a ghost call log (their effect on the counter is linked by the lemma, "
-                      "not by store's frame). Not covered: BaseDriverLibrary.execute (settings plumbing, try/except -> result), stop criteria, DOE loop, third-party optimisers.",
+                      "not by store's frame). Driver side: plugin pyvc/plug_c03.py (bound methods as opaque callables compared by (object, name); list "
+                      "membership as a function symbol whose handed-over consequences are proved in ListMembershipLemmas; list.remove; logging-only branches "
+                      "and the OneLineLogging/nullcontext choice do not fork). ASSUMED thin summaries (listed per function in the evidence): _check_algorithm, "
+                      "_check_integer_handling, _validate_settings (returns a dict with every BaseDriverSettings field - field names checked against the source), "
+                      "problem.check, preprocess_functions (verified under C01), progress bars, _post_run, OptimizationResult.from_optimization_problem, "
+                      "EvaluationProblem.get_functions / evaluate_functions, the numerical tolerance tests ObjectiveToleranceTester._check / "
+                      "DesignToleranceTester._check, and the run summary of the abstract _pre_run / _run: they go through ProblemFunction only, keep the listener "
+                      "lists, return or raise a TerminationCriterion (represented in execute by MaxIterReachedException and the base class = a subclass unknown "
+                      "to the code). One known finding (shared with C04): _get_result raises KeyError when feasible recorded points exist but none has an "
+                      "objective value, so a driver stopped by NaN raises instead of returning (replayed natively with DIFFERENTIAL_EVOLUTION / SHGO).",
         "design_ref": "DESIGN.md §4 C03",
         "modules": ["contracts.c01_c03_evaluation", "contracts.c03_driver"],
-        "not_covered": ["BaseDriverLibrary.execute", "stop_criteria.py", "BaseDOELibrary._run", "use_database=False"],
+        "assumptions": [
+            "run summary (_RunPhase) of every _pre_run/_run override: evaluations go through ProblemFunction; the database's listener lists, the driver's own listener set and "
+            "its settings fields are kept; only TerminationCriterion subclasses (or ValueError from _pre_run validation) are raised",
+            "class invariants used as preconditions of execute: the driver's own listener set is empty between executions (established by __init__, re-established by every "
+            "terminating execute - proved), the database's new-iteration listener list is duplicate-free (preserved by add/clear - proved)",
+            "execute is analysed with the **settings passed by the caller replaced by the validated settings dictionary (assumed to hold every BaseDriverSettings field)",
+            "c03_lmem(n, E, f) is defined as `exists i. 0 <= i < n and E[i] == f`; the first-occurrence choice of list.remove is CPython's",
+            "DOE: user callbacks of the sequential loop are the default (none); samples are a sequence of opaque rows",
+        ],
+        "not_covered": ["use_database=False (natively confirmed: no budget enforcement at all by gemseo - counter stays 0, L-BFGS-B max_iter=5 made 32 objective calls)",
+                        "KKT tolerances: LagrangeMultipliers.__init__ resets the evaluation counter mid-run (natively confirmed defect, see report; kkt_residual_computation, "
+                        "_KKTChecker, KKTConditionsTester are not under contract)",
+                        "BaseOptimizationLibrary._pre_run / BaseDOELibrary._pre_run bodies (summarised), parallel DOE branch and __store_in_database (C13), DOE user callbacks",
+                        "OptimizationResult.from_optimization_problem body (assumed; KeyError region of the C04 finding)", "third-party optimiser wrappers (_run of each library)",
+                        "restart clause: BaseScenario.set_optimization_history_backup sets evaluation_counter.current = len(database) after loading a backup (pathlib / HDF I/O "
+                        "not modelled); note that _init_iter_observer resets the counter to 0 unless reset_iteration_counters=False",
+                        "execute raising a non-termination exception from _run leaves the listeners registered (no try/finally in gemseo; outside the property)"],
     },
     "C05": {
         "level_text": "Proof (function by function, all inputs, all histories by invariant preservation) that (1) SimpleCache implements a one-entry map from "
@@ -221,11 +269,11 @@ PROPS = {
                       "result per task taken, on the normal and on the exception path) and of _TaskCallables.__call__.",
         "level_note": "The OS scheduler and the queue implementation are outside of the logic: the queue contract (exactly-once delivery, arbitrary order) is an "
                       "assumption, under which the order-sensitive sequential code is proved for every delivery order. Parallel forward finite differences "
-                      "(FirstOrderFD._compute_parallel_grad, contracts/c16_approx.py) are proved to return exactly the quotients of the sequential _compute_grad (same "
+                      "(FirstOrderFD._compute_parallel_grad, contracts/c16_approx.py) and the parallel complex step (ComplexStep._compute_parallel_grad, contracts/c16_complex.py) are proved to return exactly the quotients of the sequential _compute_grad (same "
                       "postcondition, which determines the result) through the positional summary of execute. Other consequences for DOE / chains / "
                       "linearization / the other derivative approximators are not under contract yet.",
         "design_ref": "DESIGN.md §4 C13",
-        "modules": ["contracts.c13_parallel", "contracts.c16_approx"],
+        "modules": ["contracts.c13_parallel", "contracts.c16_approx", "contracts.c16_complex"],
         "assumptions": [
             "queue contract: every item put in a queue is delivered exactly once, to exactly one getter, in an arbitrary order; every started worker runs "
             "_execute_workers to completion (fairness/termination of the scheduler)",
@@ -234,18 +282,19 @@ PROPS = {
             "callbacks return normally; exceptions_to_re_raise only contains exception classes; n_processes >= 1 (PositiveInt in all settings)",
             "POSIX platform; a process named 'subprocess' is a (daemonic) gemseo worker",
         ],
-        "not_covered": ["_check_unicity (set cardinality)", "parallel DOE / DiscParallelExecution / DiscParallelLinearization / parallel centered differences and complex step, compute_optimal_step",
+        "not_covered": ["_check_unicity (set cardinality)", "parallel DOE / DiscParallelExecution / DiscParallelLinearization / parallel centered differences, compute_optimal_step",
                         "shared caches and locks under true concurrency", "pickling of workers and data (C20)"],
     },
     "C08": {
         "level_text": "Proof (all inputs, unbounded number of disciplines) that DependencyGraph builds the dependency graph of the name sets, that the "
                       "leaf-peeling loop of get_execution_sequence terminates and returns a valid schedule (every discipline exactly once; groups = classes of "
-                      "mutual dependency, listed in the caller's order; a group strictly after every group producing one of its inputs), that the coupling sets "
+                      "mutual dependency, listed in the caller's order; a group strictly after every group producing one of its inputs), that the strong/weak/all coupling sets and the "
+                      "strongly/weakly coupled disciplines (both return shapes; every discipline strongly xor weakly coupled; strong couplings = union over the groups needing an MDA of inputs(group) & outputs(group), per group) "
                       "computed by CouplingStructure are the set identities implied by the name sets, and that MDOChain._execute is the exact left fold of "
                       "update(d.execute(data)) in list order. Relative to assumed contracts of three networkx functions and one cited lemma; see level_note.",
         "level_note": "Trusted: pyvc VC generator and its container models, z3/cvc5, the graph plugin pyvc/plug_graph.py (model of networkx.DiGraph as ordered node set + "
                       "edge relation + ghost removal history). Assumed: contracts of networkx.strongly_connected_components / condensation (incl. acyclicity as a rank "
-                      "function), lemma 'a non-empty finite DAG has a sink'. Not proved: order-independence of the chain result, strong/weak coupling sets (see not_covered).",
+                      "function), lemma 'a non-empty finite DAG has a sink'. Not proved: order-independence of the chain result (see not_covered).",
         "design_ref": "DESIGN.md §4 C08",
         "modules": ["contracts.c08_dependency", "contracts.c08_coupling"],
         "assumptions": [
@@ -256,9 +305,11 @@ PROPS = {
             "cited lemma (assumed, instantiated once when the peeling loop is left): a non-empty finite DAG (edges strictly decrease a rank into the naturals) has a node without successor",
             "Discipline.execute(data) returns a mapping that is a deterministic function of (discipline, content of data) and does not modify `data`",
             "sorted() of names: permutation only (the alphabetical order of the returned name lists is not modelled)",
+            "representation invariant of CouplingStructure assumed by its methods: self.sequence is a valid schedule of self.graph (the proved postcondition of get_execution_sequence, with the ghost locations c08_stage/slot/idx)",
+            "self_coupled(d) and strong_coupling(sequence, locations, nodes, x) are predicates *defined* by the axioms self_coupled_definition / strong_coupling_definition (conservative definitions, assumed where used)",
+            "itertools.chain(*generator of sets) and set.update(*generator of sets) are described by their membership (skolemised union), only to be consumed as sets",
         ],
         "not_covered": [
-            "CouplingStructure.get_strongly_coupled_disciplines, _compute_weakly_coupled, _compute_strong_couplings, _compute_weak_couplings (triple loops over the sequence; not yet under contract)",
             "lazy caching properties of CouplingStructure (strong_couplings, all_couplings, ...): get_output/input_couplings are verified reading the cached lists as they are",
             "order-independence of MDOChain results for acyclic systems (lemma over the fold) and MDAChain._create_mdo_chain, MDOChain._initialize_grammars",
             "numerical equality of an MDA chain with a monolithic solve when cycles exist (C06)",
@@ -275,15 +326,16 @@ PROPS = {
                       "of sets the disciplines already cover) the disciplines' differentiated inputs/outputs cover the CURRENT request as traverse_add_diff_io's contract says, nothing "
                       "is ever removed, and the cache stays valid (two variants: existing / not yet built coupling structure); MDOAdditiveChain._compute_jacobian - for any number of "
                       "disciplines, summed outputs and requested inputs (loop invariants) the block of every summed output w.r.t. every requested input has the variables' sizes and is "
-                      "the sum, in chain order, of the blocks of the disciplines that have one (conditional fold cfold), the summed outputs have exactly the requested inputs, every other "
+                      "the sum, in chain order, of the blocks of the disciplines that have one (conditional fold cfold; no entry and no exception when none has one), the summed outputs have only requested inputs, every other "
                       "output keeps the entry the parallel chain computed, and the disciplines' own Jacobian arrays are not modified; plus a bounded stand-in (2 disciplines, 1 summed output, "
                       "1 input) that executes the code as written - comprehension, sum, in-place operators on the very arrays of the disciplines - with the sum written out explicitly. "
-                      "The chain rule of MDOChain (reverse accumulation) is not addressed; see not_covered.",
+                      "MDOChain.copy_jacs (blocks = references into a symbolic heap of arrays): same outputs, same inputs per output, every block a FRESH array with the content of the source "
+                      "block, the argument and every existing array untouched (two loop invariants). The chain rule of MDOChain (reverse accumulation) is not addressed; see not_covered.",
         "level_note": "Chains: disciplines are opaque, their Jacobians a ghost dictionary of the chain (pyvc/plug_c09.py); ASSUMED: the summary of MDOParallelChain._compute_jacobian "
                       "(prophecy ghosts for what the parallel linearisation leaves in the disciplines and in self.jac), the constructor model of CouplingStructure (its graph is the "
                       "dependency graph specified by the contract verified on __create_graph), shapes of linearised blocks = variable sizes (what Discipline._check_jacobian_shape enforces), "
-                      "sum(filtered comprehension) = conditional left fold. One known finding (KeyError of the additive chain when a discipline has no entry for a summed output), see "
-                      "known_findings.json. Trusted: as C08 (graph plugin pyvc/plug_graph.py), the ghost maps of differentiated names for opaque disciplines. Assumed: contract of "
+                      "sum(filtered comprehension) = conditional left fold. (The KeyError of the additive chain for a discipline without an entry for a summed output was found here "
+                      "and repaired: ee4b1a3; the contract now proves: no exception, no entry when no discipline has a block.) Trusted: as C08 (graph plugin pyvc/plug_graph.py), the ghost maps of differentiated names for opaque disciplines. Assumed: contract of "
                       "networkx.edge_bfs/reverse_view; reach = reflexive-transitive closure (closure axioms). Not proved: requested endpoints of paths of length >= 1 "
                       "(needs the unfolding of reach), minimality of the selection, the Jacobian accumulation of MDOChain.",
         "design_ref": "DESIGN.md §4 C09",
@@ -296,7 +348,7 @@ PROPS = {
             "grammar.data_converter.is_continuous(name) is an uninterpreted predicate of (discipline, grammar, name); BaseGrammar.has_names(names) = set(keys).issuperset(names)",
             "a tuple of lists stored in a dict is stored by value; the lists it holds are tracked as the lists of that slot (aliasing between two mappings sharing a list, as created by _merge_diff_io_special, is not tracked)",
             "chains: discipline.jac of an opaque discipline is its slot in a ghost dictionary of the chain; a block read from it is the block of that slot (in-place writes are written back)",
-            "chains: after MDOParallelChain._compute_jacobian every discipline's jac is a dictionary; blocks of the pair (o, x) have shape (size(o), size(x)); every requested input of the chain is differentiated by some discipline producing the summed output",
+            "chains: after MDOParallelChain._compute_jacobian every discipline's jac is a dictionary; blocks of the pair (o, x) have shape (size(o), size(x))",
             "chains: MDOChain class invariant - _coupling_structure is None implies _last_diff_inouts is None (both set by __init__, only _compute_diff_in_outs assigns them)",
         ],
         "bounded_standins": ["MDOAdditiveChain._compute_jacobian@two-disciplines: 2 disciplines (possibly the same twice), 1 summed output, 1 requested input, symbolic names, shapes and block contents"],
@@ -304,7 +356,8 @@ PROPS = {
             "for a path of length >= 1: that the requested input x is a differentiated input of the first discipline and the requested output o a differentiated output of the last one (the contracts of _merge_diff_ios give it once a first/last edge is exhibited; exhibiting it needs the unfolding axiom of reach)",
             "exactness/minimality of the selection (only coverage is proved for the traversals and merges)",
             "ValueError of traverse_add_diff_io (allowed, not characterised; the state of the request cache after it is not specified)",
-            "MDOChain.reverse_chain_rule/_compute_jacobian accumulation (numerical chain rule, matrix products), copy_jacs, Discipline._init_jacobian (zero blocks for independent pairs)",
+            "MDOChain.reverse_chain_rule/_compute_jacobian accumulation (numerical chain rule, matrix products), Discipline._init_jacobian (zero blocks for independent pairs)",
+            "copy_jacs on flat dictionaries {output: array} and JacobianOperator blocks (elif branch); pairwise distinctness of the fresh copies among themselves",
             "MDOParallelChain._compute_jacobian itself (assumed summary: parallel execution machinery, merge loop), MDAChain, nested combinations",
             "additive chain: that the disciplines' blocks are the exact Jacobians of the disciplines (opaque), sparse / JacobianOperator blocks, numpy broadcasting of blocks of unequal shapes",
             "the constructor of CouplingStructure (consistency check, execution sequence) - modelled, not executed",
@@ -322,8 +375,10 @@ PROPS = {
                       "update_from_schema) changes the builder's properties exactly as specified and re-establishes cache validity (a cached schema dictionary lists exactly the "
                       "current properties and keywords; a cached validator was compiled from a dictionary listing exactly the current properties, without 'required'), and the "
                       "queries schema, _create_validator, _validate, to_json rely on it, leave the definition unchanged and (validate) return the verdict of a validator "
-                      "compiled from the CURRENT definition. Three natively confirmed defects are exposed as known findings with regions (stale/missing 'required' in schema, "
-                      "validate() popping 'required' from the cached schema, update_from_schema dropping the schema's required names). "
+                      "compiled from the CURRENT definition; schema/to_json list exactly the CURRENT required names (given WFG), validate() leaves the cached schema intact and "
+                      "update_from_schema adds the schema's required names - the four defects found here were repaired (0717736, 63aba35, 02afd7d, e774076, see known_findings 'fixed') "
+                      "and the clauses are proved without regions; the builder's `required` / `properties` views are verified on the genson representation "
+                      "(_root_node._active_strategies[0]._required/_properties: the attached live containers). "
                       "Pydantic grammars and the Simple/JSON/reference-validator agreement are NOT covered; see level_note.",
         "level_note": "Trusted: pyvc and its dict/set models; types and data values are opaque values and isinstance(value, type) is an uninterpreted predicate; the "
                       "collections.abc mixin methods the classes inherit (Mapping.__contains__/keys/items/get, MutableMapping.pop/update, MutableSet.__ior__/__iand__/remove/clear, "
@@ -340,7 +395,7 @@ PROPS = {
             "update_namespaces: keys of the other map are added, other entries unchanged (values - a name or a list of names - are opaque); __create_data_converter only sets _data_converter",
             "distinct grammar arguments do not alias (g.update(g) is not covered)",
             "JSON grammars: genson builder = (properties dict, own required set or none, other root keywords never including properties/required/id, always $schema); assumed add_schema "
-            "(replace/merge properties, INTERSECT the own required set), add_object, to_schema/to_json; `properties`/`required` are the live containers (`required`: a new empty set when none is tracked); "
+            "(replace/merge properties, INTERSECT the own required set), add_object, to_schema/to_json; `properties`/`required` are the live containers of the root strategy (`required` attaches an empty set when the strategy has none; a new empty set only without any strategy); "
             "fastjsonschema.compile depends only on the dictionary content; __cast_data_mapping keeps the keys; len(dict) >= number of distinguished keys it holds",
             "message construction (MultiLineString, f-strings, logging) is dropped",
         ],
@@ -364,7 +419,7 @@ PROPS = {
                       "__setstate__ re-runs __init__ with exactly these keywords, CPython keyword binding of the state dictionary) with the round-trip lemma (same node, same real "
                       "file path, same tolerance and name); JSONGrammar.__getstate__ (state = instance dictionary minus validator/builder/_defaults plus the CURRENT defaults as a plain "
                       "dict under 'defaults', whatever stray entry the dictionary holds under that key) and __setstate__ (every entry restored, builder refilled from the pickled "
-                      "schema, restored defaults exactly those of the state; KeyError exactly when a default is no property of the pickled schema).",
+                      "schema with its own required set emptied again (034df8e), restored defaults exactly those of the state; KeyError exactly when a default is no property of the pickled schema).",
         "level_note": "Instance dictionaries are modelled as a dict field; attribute values are opaque with recognisable kinds (Synchronized / Path / PurePath). "
                       "The whole-class question (is every non-picklable attribute excluded and rebuilt) is not a function contract and is not covered.",
         "design_ref": "DESIGN.md §4 C20",
@@ -437,9 +492,14 @@ PROPS["C11"] = {
                   "__get_missing_hdf_output_dataset (exactly the unlisted names, positioned after the listed ones), __create_hdf_input_output, "
                   "__append_hdf_output (exception condition, no-op case, frame; callee preconditions proved), add_pending_array (under an explicit "
                   "hash-collision-freedom assumption). Induction lemmas for the recursive rank function and for filtered sub-sequences (what the reader "
-                  "computes). NOT proved in this build: to_file, update_from_file (contracts for the file invariant / reader are designed in "
-                  "contracts/c11_hdf_database.py - pt_wf/pt_is/fhas/fval - but the two functions are not yet verified against them), hence no end-to-end "
-                  "round-trip or 'append == single export' lemma; these are covered only by the bounded run-time stand-in below.",
+                  "computes). to_file is proved (both branches, loop invariants over the pending buffer / the database) at the INDEX level: full export "
+                  "and append give the same file view - x has exactly the entries 0..n-1, x/<i> = the i-th key, every point (also one stored with no output) has its names "
+                  "dataset listing as many names as it has outputs, pending buffer emptied - under history preconditions stated as `requires append:*`; update_from_file is "
+                  "proved at the index level too (never raises on a well-formed node, rebuilds exactly N points in index order); lemmas: the record written for a new "
+                  "point decodes (fhas/fval) to exactly its outputs (PointRoundTripLemmas), reader(writer(db)) has the same points in the same order and "
+                  "'incremental append == single final export' at the index level (IndexRoundTripLemmas). NOT proved: the content clauses of the reader (names = fhas, "
+                  "values = fval; designed, switched off: READER_CONTENT_CLAUSES), the append-case point lemma and hence the end-to-end VALUE round trip - covered only by "
+                  "the bounded run-time stand-in below.",
     "level_note": "Trusted: pyvc, z3, the abstract h5py model pyvc/plug_hdf.py (assumed contracts A1-A15, each validated against the real h5py by "
                   "tools/validate_h5py_model.py), sorted() as a deterministic duplicate-free listing, float64 = reals, ASCII output names. "
                   "The property is claimed at the level of the writer primitives only; DesignSpace / OptimizationProblem / HDF5Cache files are not under contract.",
@@ -471,12 +531,13 @@ PROPS["C11"] = {
     ],
     "bounded_standins": [
         "contracts/rt_c11.py (run: PYTHONPATH=/repo/src:/verif /venv/bin/python -m contracts.rt_c11 3): all sequences of length <= 3 (root node; <= 3 on a nested node) "
-        "over {store(p, block): 3 points x 4 output blocks mixing scalars, rank-1/rank-2 arrays and names sorting before/after exported ones; export; export-append} "
+        "over {store(p, block): 3 points x 5 output blocks (one empty) mixing scalars, rank-1/rank-2 arrays and names sorting before/after exported ones; export; export-append} "
         "with at least one export and at most two distinct points, on REAL h5py files in a tempfile directory: after every export Database.from_hdf(file) equals the "
         "in-memory database (points in order, names, values), and at the end the incrementally appended file reloads to the same content as a single non-append "
-        "export. 2140 scenarios, 0 failures on the pinned tree (36 s). This stands in for the unproved to_file / update_from_file / round-trip clauses.",
+        "export. 3208 scenarios, 0 failures on the pinned tree (48 s). This stands in for the unproved to_file / update_from_file / round-trip clauses.",
     ],
-    "not_covered": ["HDFDatabase.to_file and update_from_file (designed contracts not yet verified; bounded stand-in only)", "round-trip lemma and 'incremental append == single final export' lemma",
+    "not_covered": ["content clauses of HDFDatabase.update_from_file (names/values of each reloaded point) and the file-level per-point content invariant of to_file (index level proved; values: bounded stand-in only)",
+                    "Database.input_space / DesignSpace.to_hdf inside to_file (assumed to leave x, k, v untouched)",
                     "DesignSpace.to_hdf/from_hdf/to_csv/from_csv, OptimizationProblem.to_hdf/from_hdf", "HDF5Cache itself (hash index read_hashes, behavioural subtyping of _read_data/_write_data against BaseFullCache's storage specification, update_file_format); only its file handler HDF5FileSingleton is under contract", "HDF5 library / file-system behaviour, complex values (imaginary part dropped by __to_real), "
                     "non-ASCII output names (numpy.array(.., dtype=bytes_) raises UnicodeEncodeError: export fails)", "hash collisions in the pending buffer"],
 }
@@ -500,7 +561,7 @@ PROPS["C17"] = {
                   "Not covered: 'optimising any of them reaches the same optimum' (optimiser behaviour), total derivatives through the MDA (C07/C09), BiLevel.",
     "design_ref": "DESIGN.md §4 C17",
     "runtime": "contracts.rt_c17",
-    "modules": ["contracts.c17_formulations", "contracts.c17_idf_norm", "contracts.c17_mdf"],
+    "modules": ["contracts.c17_formulations", "contracts.c17_idf_norm", "contracts.c17_mdf", "contracts.c17_build"],
     "assumptions": [
         "facts about the recursive offset functions off/offm and the prefix sum psum_i used as axioms in the function contracts (off-monotone, offm-monotone, "
         "psum-bridge, consumed-is-offset) are proved by induction (base + step obligations) in the lemma contract OffsetLemmas",
@@ -520,12 +581,55 @@ PROPS["C17"] = {
 }
 
 PROPS["C14"] = {
-    "level_text": "PARTIAL (work in progress). gemseo's own side of the DOE libraries.",
-    "level_note": "Trusted: pyvc, numpy model, z3. Third-party samplers assumed.",
+    "level_text": "PARTIAL: gemseo's own side of the DOE libraries (the third-party samplers are assumed). Proof, for every design space (any number, sizes, types and "
+                  "bounds of variables), every settings dictionary and every unit sample, (driver level) that BaseDOELibrary.compute_doe returns the unit samples of "
+                  "the algorithm when unit_sampling and otherwise exactly DesignSpace.untransform_vect(unit samples, no_check=True) computed with the "
+                  "integer-normalisation flag enabled and the entry variables, that _pre_run stores the unit samples of the filtered settings and their image, "
+                  "that on every normal return the flag has its entry value and the variables, index ranges, current values and dimension are untouched; "
+                  "__enable/__reset_integer_variables_normalization toggle exactly the flag; __check_unnormalization_capability raises ValueError iff some "
+                  "component has a False normalisation policy (never for CustomDOE); Seeder.get_seed returns a given seed unchanged and increments the default seed "
+                  "exactly once per call; DiagonalDOE returns exactly n_samples rows, one column per component in the design space's order, column j = "
+                  "linspace(0,1,n) or its reverse exactly when 'j' or the owner variable of j is listed, every entry in [0,1]; CustomDOE raises ValueError iff the "
+                  "matrix does not have one column per component and otherwise returns as many rows, row r = transform_vect(given row r); (numerical level, "
+                  "cached normalisation data typed precisely) unnormalize_vect / round_vect on a BATCH of unit samples compute, row by row and component by "
+                  "component (hence in the design space's component order), u (ub - lb) + lb on normalised components, u elsewhere, then numpy.round on the integer "
+                  "components (in place, integer dtype recast included); lemmas: a unit sample lands inside [lb, ub], end points, equal bounds, monotonicity; with "
+                  "integer bounds the rounded value is an integer inside the bounds; induction lemmas for the hstack offsets and the linspace bounds.",
+    "level_note": "Trusted: pyvc (three small additive engine features: typed **kwargs, `f(**d)` into a `**kw` callee, per-contract callee contract variants), the numpy "
+                  "model npmodel.py + pyvc/plug_c14.py (hstack of a list, where(mask), set(int vector), linspace, newaxis, a[..., mask], apply_along_axis(transform_vect), "
+                  "str(int), kwargs with a known key set), z3, reals for floats, numpy.round as an uninterpreted function with its three axioms. ASSUMED contracts "
+                  "(listed in the evidence): the abstract sampler _generate_unit_samples (deterministic function of algorithm, dimension, validated settings and "
+                  "default seed; rows in [0,1]^d), DesignSpace.untransform_vect at the driver level (uninterpreted image function of flag, variables, policies and input; "
+                  "its per-component meaning is what the numerical-level contracts prove under C02's validity of the cached data), pydantic settings validation / "
+                  "filtering, the stop_if_nan setter and _init_iter_observer. OBSERVATION (not a clause of the property, reported): when "
+                  "__check_unnormalization_capability raises (a component unbounded on one side), compute_doe and _pre_run leave "
+                  "design_space.enable_integer_variables_normalization = True although it was False on entry (and the policies of the integer variables changed).",
     "design_ref": "DESIGN.md §4 C14",
     "modules": ["contracts.c14_doe"],
-    "assumptions": [],
-    "not_covered": [],
+    "assumptions": [
+        "third-party samplers (SciPy, OpenTURNS, pyDOE, full factorial...): _generate_unit_samples returns one column per component, entries in [0,1], a deterministic "
+        "function c14_unit_samples(algorithm name, dimension, validated settings, default seed of the Seeder); only the Seeder may change",
+        "driver level: DesignSpace.untransform_vect(x, no_check=True) = c14_untransform(integer-normalisation flag, variables, policies, x), a new array of the shape of x; it only "
+        "refreshes the cached normalisation data (bridge to the numerical level: UnnormalizeVectBatch is proved under wfnum = what __update_normalization_vars establishes, C02)",
+        "numerical level preconditions (DesignSpace invariants): cached normalisation data valid (C02 wfnum), one column per component, an integer common dtype only when "
+        "every variable is an integer variable",
+        "_validate_settings raises a ValueError or returns a deterministic function of (algorithm, settings model, settings); _filter_settings a deterministic function of "
+        "(settings, excluded model) without keys `self` / `design_space`; the **settings of a function never contain the names of its own parameters (CPython)",
+        "DiagonalDOE: n_samples >= 2 (validated by DiagonalDOE_Settings, ge=2), reverse is a list of strings; linspace(a, b, n)[i] = a + (b - a) t(i, n) with "
+        "t(i, n) (n - 1) = i (bounds / end points proved from this definition in LinspaceLemmas); str(int) is a deterministic injective function",
+        "numpy.hstack of a list of vectors: blocks at the prefix sums of the lengths (monotone offsets and block-of-position proved by induction in HstackLemmas); hstack of n x 1 columns",
+        "CustomDOE: samples given as a matrix (no file, no mapping / sequence of mappings); apply_along_axis(transform_vect, 1, A) maps every row, in order, by the deterministic "
+        "length-preserving function c14_transform_vect of the design-space state",
+        "variable types are 'float' or 'integer' (pydantic-validated DataType); assigning a dtype that differs only by metadata leaves the elements unchanged",
+    ],
+    "not_covered": ["the third-party samplers themselves (sample count, range, seed handling of SciPy / OpenTURNS / pyDOE wrappers and their gemseo adapters)",
+                    "compute_doe with a dimension (int) instead of a design space (singledispatch __get_design_space building the unit space)",
+                    "ParameterSpace (random variables: untransform through the inverse CDFs)", "_run / parallel evaluation of the samples (C13) and storage order in the database",
+                    "CustomDOE.read_file, samples given as mappings", "DOEScenario / factory / settings models",
+                    "the link between the design space's variables / policies and its cached normalisation arrays (__update_normalization_vars, C02 gap), hence no "
+                    "end-to-end 'compute_doe output lies inside the bounds' theorem: it is the composition of the driver-level proof, the assumed bridge and the numerical-level proof",
+                    "that untransform_vect(transform_vect(x)) = x for CustomDOE (holds per component for lb < ub: C02 BijectionLemmas; equal bounds map to lb)",
+                    "error paths: the state of the design space when compute_doe / _pre_run raise (see the observation in level_note)"],
 }
 
 _TODO = "not yet under contract in this build; see DESIGN.md §9 (build order) - no other technique is substituted"
